@@ -75,6 +75,7 @@ type Report struct {
 func (w *World) RunPath(fn *ssa.Function, s *smt.Solver, pp PendingPath, maxSteps int64) (res PathResult, p *Path) {
 	s.Reset()
 	p = NewPath(s, pp.Prefix, maxSteps, pp.Model)
+	p.WallDeadline = w.pathDeadline
 	i := &interpreter{
 		prog:       w.Prog,
 		globals:    make(map[*ssa.Global]*value),
@@ -154,6 +155,10 @@ func (w *World) Explore(name string, opt Options) (*Report, error) {
 	}
 	if opt.MaxSteps == 0 {
 		opt.MaxSteps = 2_000_000
+	}
+	w.pathDeadline = time.Time{}
+	if !opt.Deadline.IsZero() {
+		w.pathDeadline = opt.Deadline.Add(60 * time.Second)
 	}
 	if opt.SolverBin == "" {
 		opt.SolverBin = DefaultSolver()
